@@ -100,6 +100,39 @@ class Ctx:
         self.cmds.append(r.cmd)
         return r
 
+    def tlc_cases(self, module: str, cfg, cases: list, label: str = "cases", env_key: str = "VERIF_CASES", **kw):
+        """Run a case-file driven TLC instance.  TLC integers are 32 bit; a *sampled* case whose exact arithmetic
+        overflows aborts the whole run, so on an overflow the file is bisected, the offending cases are dropped
+        (counted in the evidence as cases_dropped_overflow) and the others are still evaluated.
+        Returns the list of TlcRun objects of the successful sub-runs."""
+        import json as _json
+
+        runs = []
+        n = [0]
+
+        def go(sub):
+            if not sub:
+                return
+            n[0] += 1
+            p = self.work / f"{label}-{os.getpid()}-{n[0]}.json"
+            p.write_text(_json.dumps(sub))
+            env = dict(kw.get("env") or {})
+            env[env_key] = str(p)
+            try:
+                runs.append(self.tlc(module, cfg, **dict(kw, env=env)))
+            except MachineryError as ex:
+                if "Overflow when computing" not in str(ex):
+                    raise
+                if len(sub) == 1:
+                    self.extra["cases_dropped_overflow"] = self.extra.get("cases_dropped_overflow", 0) + 1
+                    return
+                h = len(sub) // 2
+                go(sub[:h])
+                go(sub[h:])
+
+        go(cases)
+        return runs
+
     def expect_holds(self, r: tlc.TlcRun, what: str):
         """A design-level invariant violated on the *model* is a machinery failure unless the caller handles it."""
         if r.violated:
